@@ -655,7 +655,7 @@ def run_call(ctx, st, kind, n, h, a, am, k, start_rows, vector, overwrite, dtype
     res_np = res.detach().to(torch.double).numpy().copy()
     if res_np.size != B * n:
         # not the requested number of chains / sites (e.g. `num_samples` or a size not honoured): nothing else can be evaluated on this call
-        ctx.oracle(f"{tag}: result is a 0/1 double array of the requested shape", False, case,
+        ctx.oracle(f"{tag}: result is a 0/1 array of the requested shape", False, case,
                    detail={"shape": list(res.shape), "dtype": str(res.dtype), "requested": [n] if vector else [B, n]}, sig=f"{kind}/values-shape", theorem="C05_values_shape")
         return res, calls, None
     final = res_np.reshape(B, n)
@@ -664,13 +664,15 @@ def run_call(ctx, st, kind, n, h, a, am, k, start_rows, vector, overwrite, dtype
         # applied.  That is a broken correspondence, not a violation of the property: only the effect oracles below decide.
         ctx.point(f"{tag}: draws are made through torch.bernoulli (scripted replay applicable)", "aux", 0, len(exp_shapes), case, exact=True,
                   sig=f"{kind}/draws-not-through-bernoulli", theorem=TH["replay"])
-        okv = (tuple(res.shape) == ((n,) if vector else (B, n)) and res.dtype == torch.double and bool(np.all((final == 0) | (final == 1))))
-        ctx.oracle(f"{tag}: result is a 0/1 double array of the requested shape", okv, case, detail={"shape": list(res.shape), "dtype": str(res.dtype)},
+        okv = (tuple(res.shape) == ((n,) if vector else (B, n)) and bool(np.all((final == 0) | (final == 1))))
+        ctx.count(f"result dtype {res.dtype}")   # informational: the statement says "0/1 arrays of the requested shape", not which element type
+        ctx.oracle(f"{tag}: result is a 0/1 array of the requested shape", okv, case, detail={"shape": list(res.shape), "dtype": str(res.dtype)},
                    sig=f"{kind}/values-shape", theorem="C05_values_shape")
         return res, calls, final
     # ---- oracles on the implementation
-    okv = (tuple(res.shape) == ((n,) if vector else (B, n)) and res.dtype == torch.double and bool(np.all((final == 0) | (final == 1))))
-    ctx.oracle(f"{tag}: result is a 0/1 double array of the requested shape", okv, case, detail={"shape": list(res.shape), "dtype": str(res.dtype)},
+    okv = (tuple(res.shape) == ((n,) if vector else (B, n)) and bool(np.all((final == 0) | (final == 1))))
+    ctx.count(f"result dtype {res.dtype}")   # informational (see above)
+    ctx.oracle(f"{tag}: result is a 0/1 array of the requested shape", okv, case, detail={"shape": list(res.shape), "dtype": str(res.dtype)},
                sig=f"{kind}/values-shape", theorem="C05_values_shape")
     pattern_ok = got_shapes == exp_shapes
     # how the draws are split into torch.bernoulli calls (one call per layer, layers concatenated, ...) is not constrained by the
@@ -688,7 +690,18 @@ def run_call(ctx, st, kind, n, h, a, am, k, start_rows, vector, overwrite, dtype
                    theorem="C05_kernel(_purif)")
     if init is not None:
         same = res.data_ptr() == ptr
-        if not overwrite or dtype != "double":
+        if overwrite and dtype != "double":
+            # a start tensor whose element type is not the parameters' (float32 here) handed over WITH overwrite=True: the statement says
+            # "updated in place" and does not mention element types; the code converts the start state (a copy) and leaves the caller's
+            # tensor alone.  Both readings are accepted at property level - the tensor is either untouched or holds the returned values -
+            # and which one happened is an informational counter; the model's `native = false` branch is compared as an AUXILIARY point below.
+            untouched = bool(torch.equal(init, before)) and init.data_ptr() == ptr
+            inplace = bool(torch.equal(init.to(torch.double).reshape(B, n), torch.from_numpy(final)))
+            ctx.count("foreign-dtype start, overwrite=True: " + ("caller's tensor untouched" if untouched else "updated in place" if inplace else "neither"))
+            ctx.oracle(f"{tag}: foreign-dtype start state with overwrite=True is either left untouched or holds the returned values", untouched or inplace, case,
+                       detail={"same_object": same, "before": before.tolist(), "after": init.tolist(), "result": final.tolist()},
+                       sig=f"{kind}/overwrite-foreign-dtype", theorem="C05_overwrite (guarded exception: non-native start state)")
+        elif not overwrite:
             okb = (not same) and bool(torch.equal(init, before)) and init.data_ptr() == ptr
             ctx.oracle(f"{tag}: caller's start state untouched, result is another object", okb, case,
                        detail={"same_object": same, "before": before.tolist(), "after": init.tolist(), "overwrite_given_as": repr(ow_obj)},
@@ -726,9 +739,11 @@ def run_call(ctx, st, kind, n, h, a, am, k, start_rows, vector, overwrite, dtype
                           sig=f"{kind}/replay-probs", theorem=TH["replay"])
             ctx.point(f"{tag}: final state", "property", final.astype(int).tolist(), m["final"], case, exact=True, sig=f"{kind}/replay-final", theorem=TH["final"])
             if init is not None:
-                ctx.point(f"{tag}: returned tensor is the caller's tensor", "property", bool(res.data_ptr() == ptr), m["same_object"], case, exact=True,
+                # (overwrite=True on a start state of a foreign element type is outside what the statement fixes: auxiliary there, see above)
+                lvl = "aux" if (overwrite and dtype != "double") else "property"
+                ctx.point(f"{tag}: returned tensor is the caller's tensor", lvl, bool(res.data_ptr() == ptr), m["same_object"], case, exact=True,
                           sig=f"{kind}/buffer-identity", theorem=TH["buf"])
-                ctx.point(f"{tag}: caller's tensor after the call", "property", init.to(torch.double).reshape(B, n).numpy().astype(int).tolist(), m["caller_data"], case,
+                ctx.point(f"{tag}: caller's tensor after the call", lvl, init.to(torch.double).reshape(B, n).numpy().astype(int).tolist(), m["caller_data"], case,
                           exact=True, sig=f"{kind}/caller-buffer", theorem=TH["buf"])
     return res, calls, final
 
@@ -775,7 +790,7 @@ def replay_body(ctx, st, case, am, inp=None, ikey=None, A=None):
         with Recorder(dseed + 1, mode) as rec2:
             res2 = st.sample(A.i(k2), A.i(case["B"]), res, ow2) if qc.flag_pos(case.get("owf2")) else st.sample(A.i(k2), initial_state=res, overwrite=ow2)
         if res2.numel() != case["B"] * n:
-            ctx.oracle("call2: result is a 0/1 double array of the requested shape", False, case, detail={"shape": list(res2.shape)},
+            ctx.oracle("call2: result is a 0/1 array of the requested shape", False, case, detail={"shape": list(res2.shape)},
                        sig=f"{kind}/values-shape", theorem="C05_values_shape")
             return
         fin2 = res2.detach().numpy().reshape(case["B"], n).copy()
@@ -1088,6 +1103,30 @@ def run(ctx):
             cnt += 1
         ctx.note(f"STATISTICAL SUPPORT ONLY (not part of the proof): {cnt} runs of 2e5 chains with the real torch generator, k=1,2,3, "
                  f"empirical law vs P^k assembled from the public conditionals; Hoeffding sup-norm bound at delta=1e-12; worst sup/eps = {worst:.3f}")
+
+
+ENV_ARCHS = [("pos", 2, 3, 0), ("cplx", 3, 2, 0), ("dens", 2, 3, 2), ("dens", 3, 1, 2), ("dens", 2, 2, 2)]
+
+
+def env_run(ctx, env_name):
+    """every call family of the property under another process-global setting of the CALLER (harness/common.py ENVS: torch default dtype
+    float64, autograd switched off, another working directory): the statement quantifies over parameters / start states / k / overwrite,
+    not over those settings, so it must hold under each of them (scratch tensors allocated without an explicit dtype, `.to(...)` that only
+    copies when the dtype differs, results that carry autograd history, ...).  The state objects are CONSTRUCTED inside the environment:
+    one model per state kind and, for the purification RBM, num_hidden > / < / == num_aux; for each the conditionals + kernel oracles
+    (part a), every replay family of gen_replays (batch / vector / fresh start, k = 0..3, overwrite, continuation, foreign dtype; part b)
+    and one history case (part d).  Independent of the corpus."""
+    rng = ctx.rng
+    for idx, (kind, n, h, a) in enumerate(ENV_ARCHS):
+        am, ph = rand_model(rng, kind, n, h, a, rng.choice([1.0, 3.0]))
+        model = {"kind": kind, "n": n, "h": h, "a": a, "scale": 1.0, "am": am, "ph": ph, "gpuf": qc.flag_form(rng, plain=0.4), "aseed": af.draw_aseed(rng)}
+        c = dict(model)
+        c.update({"part": "cond", "rseed": rng.randrange(2 ** 31), "law": True})
+        dispatch(ctx, c)
+        for rc in gen_replays(ctx, model, False):
+            dispatch(ctx, rc)
+        dispatch(ctx, gen_history(ctx, model, False, idx))
+        ctx.count(f"env:{env_name}:models")
 
 
 def search(ctx):
